@@ -207,6 +207,38 @@ func TestFaultScenarios(t *testing.T) {
 		Opt:        scen.GenOpt{Horizon: 2 * time.Hour, Depth: 2, Fanout: 2, Faults: true, MultiInteg: true, ShortTimers: true, Silences: true, Reloads: true}}, sysCheckers)
 }
 
+// siblingFailsFast: a receiver with three integrations; in the flush that first reports the group one of them
+// fails at once (unrecoverably, or recoverably for the whole flush) while the others are slow (seconds) or need
+// a retry. The failure of the one must not end the deliveries of the others: they complete in that same flush,
+// are recorded, and are not repeated at the next flush.
+func siblingFailsFast(r *rand.Rand) *scen.Scenario {
+	gw := gen.Pick(r, []time.Duration{time.Second, 5 * time.Second})
+	gi := gen.Pick(r, []time.Duration{30 * time.Second, time.Minute})
+	ri := time.Hour
+	gb := []string{"alertname"}
+	cfg := &scen.Config{ResolveTimeout: 5 * time.Minute,
+		Route:     &model.RouteSpec{Receiver: "r0", GroupBy: &gb, GroupWait: &gw, GroupInterval: &gi, RepeatInterval: &ri},
+		Receivers: []scen.Receiver{{Name: "r0", Integs: []scen.Integ{{SendResolved: true}, {SendResolved: true}, {SendResolved: true}}}}}
+	s := &scen.Scenario{Config: cfg, Duration: 6 * time.Minute}
+	t0 := time.Duration(1+r.Intn(20))*time.Second + time.Duration(1+r.Intn(998))*time.Millisecond
+	far := 30 * time.Minute
+	s.Ops = append(s.Ops, scen.Op{At: t0, Kind: "alerts", Alerts: []scen.PostSpec{{Labels: model.Labels{"alertname": "A", "sev": "crit"}, EndOff: &far}}})
+	tick := t0 + gw
+	order := r.Perm(3)
+	// one fails fast for the whole first flush, one answers after 2-6 s, one fails recoverably for the first 1-3 s
+	s.Faults = append(s.Faults,
+		scen.Fault{Receiver: "r0", Idx: order[0], From: tick - time.Second, To: tick + gi/2, Kind: gen.Pick(r, []string{"unrecoverable", "unrecoverable", "recoverable"})},
+		scen.Fault{Receiver: "r0", Idx: order[1], From: tick - time.Second, To: tick + gi/2, Kind: "slow", Delay: time.Duration(2+r.Intn(5)) * time.Second},
+		scen.Fault{Receiver: "r0", Idx: order[2], From: tick - time.Second, To: tick + time.Duration(1+r.Intn(3))*time.Second, Kind: "recoverable"})
+	return s
+}
+
+func TestSiblingFailsFast(t *testing.T) {
+	sub := vf.Cur().Sub("sibling-fails-fast", "targeted: a receiver with three integrations; at the first flush of a group one fails at once (unrecoverable, or recoverable for the whole flush), one answers only after 2-6 s, one needs retries for 1-3 s: the slow one and the retried one must complete in that same flush (no delivery is cut long before the flush deadline while nothing stops the dispatcher), be recorded and not be repeated at the next flush, the failed one is sent the group at a later flush; same checkers as fault-scenarios; non-trivial = some flush failed; distinct by (seed, attempts, counters)", 10)
+	sysrun.Run(t, "C20", sub, sysrun.Family{Name: "sff", Quick: 40, Thorough: 2000, Gen: siblingFailsFast,
+		NonTrivial: func(c map[string]int64) bool { return c["failed_flushes"] > 0 }}, sysCheckers)
+}
+
 var _ = rand.Int
 var _ = gen.LabelNames
 
